@@ -51,6 +51,26 @@ pub fn scenario(prop: &str) -> Scenario {
             s.min_machines = 1;
             s.max_machines = 4;
         }
+        "C03" => {
+            s.mp.act_none = 1;
+            s.mp.act_cancel = 0;
+            s.mp.act_pad = 1;
+            s.mp.act_block = 8;
+            s.mp.act_timer = 0;
+            s.mp.counters = 0;
+            s.mp.limits = 0;
+            s.mp.signals = 0;
+            s.mp.ends = 3;
+            s.mp.trans_density = 60;
+            s.mp.dist = DistMode::Const;
+            s.mp.prob = ProbMode::Dyadic;
+            s.hp.min_events = 1;
+            s.hp.max_events = 1;
+            s.hp.max_calls = 16;
+            s.hp.weights = [2, 1, 2, 2, 1, 2, 6, 5, 1, 1];
+            s.min_machines = 1;
+            s.max_machines = 3;
+        }
         "C04" => {
             s.mp.ends = 35;
             s.mp.signals = 25;
@@ -106,6 +126,7 @@ pub fn monitor(prop: &str, c: &FwCase, run: &FwRun) -> Option<String> {
         "C01" => mon_c01(c, run),
         "C04" => mon_c04(c, run),
         "C02" => mon_c02(c, run),
+        "C03" => mon_c03(c, run),
         _ => None,
     }
 }
@@ -141,6 +162,10 @@ pub fn nontrivial(prop: &str, c: &FwCase, run: &FwRun) -> bool {
             run.calls.iter().any(|c| c.actions.iter().any(|a| matches!(a, TriggerAction::SendPadding { .. })))
                 && c.machines.iter().any(|m| m.max_padding_frac > 0.0 || m.allowed_padding_packets > 0) 
         }
+        "C03" => run
+            .calls
+            .iter()
+            .any(|c| c.actions.iter().any(|a| matches!(a, TriggerAction::BlockOutgoing { .. }))),
         _ => run.calls.iter().any(|c| !c.actions.is_empty()),
     }
 }
@@ -283,6 +308,118 @@ fn mon_c02(c: &FwCase, run: &FwRun) -> Option<String> {
                     return Some(format!(
                         "call {}: SendPadding for machine {} with {} own paddings (budget {}), machine fraction {}/{} vs limit {}, global fraction {}/{} vs limit {}",
                         j, i, pad_i[i], m.allowed_padding_packets, pad_i[i], normal + pad_i[i], m.max_padding_frac, pad, pad + normal, c.fpad
+                    ));
+                }
+            }
+        }
+    }
+    None
+}
+
+fn mul_wide(a: u128, b: u128) -> (u128, u128) {
+    let (a1, a0) = (a >> 64, a & 0xffff_ffff_ffff_ffff);
+    let (b1, b0) = (b >> 64, b & 0xffff_ffff_ffff_ffff);
+    let p00 = a0 * b0;
+    let p01 = a0 * b1;
+    let p10 = a1 * b0;
+    let p11 = a1 * b1;
+    let mid = (p00 >> 64) + (p01 & 0xffff_ffff_ffff_ffff) + (p10 & 0xffff_ffff_ffff_ffff);
+    let lo = (p00 & 0xffff_ffff_ffff_ffff) | (mid << 64);
+    let hi = p11 + (p01 >> 64) + (p10 >> 64) + (mid >> 64);
+    (hi, lo)
+}
+
+/// exact test d / e < f for f64 f > 0 finite, e > 0 (any u64 d, e)
+pub fn ratio_below_wide(d: u64, e: u64, f: f64) -> bool {
+    let bits = f.to_bits();
+    let ex = ((bits >> 52) & 0x7ff) as i64;
+    let frac = bits & ((1u64 << 52) - 1);
+    let (mant, exp) = if ex == 0 { (frac, -1074i64) } else { (frac | (1 << 52), ex - 1075) };
+    // d < mant * 2^exp * e
+    let rhs = mul_wide(mant as u128, e as u128);
+    if exp >= 0 {
+        // f >= 2^52: larger than any quotient of u64 values unless e tiny; compare d < rhs << exp
+        if rhs.0 != 0 || exp >= 64 {
+            return true;
+        }
+        return (d as u128) < rhs.1.checked_shl(exp as u32).unwrap_or(u128::MAX);
+    }
+    let sh = (-exp) as u32;
+    if sh >= 190 {
+        return d == 0 && (rhs.0 != 0 || rhs.1 != 0);
+    }
+    // lhs = d << sh as 256 bit
+    let lhs = if sh >= 128 {
+        ((d as u128) << (sh - 128), 0u128)
+    } else if sh == 0 {
+        (0, d as u128)
+    } else {
+        ((d as u128) >> (128 - sh), (d as u128) << sh)
+    };
+    lhs < rhs
+}
+
+fn share_below(f: f64, d: u64, e: u64) -> bool {
+    if !(f > 0.0) {
+        return true;
+    }
+    if d < (1 << 53) && e < (1 << 53) {
+        if e == 0 {
+            return d == 0;
+        }
+        ratio_below_wide(d, e, f)
+    } else {
+        // beyond exact u64->f64 conversion the property is stated for the clock's own f64 quotient
+        !((d as f64) / (e as f64) >= f)
+    }
+}
+
+/// C03: recompute blocked time from BlockingBegin/BlockingEnd reports and timestamps
+fn mon_c03(c: &FwCase, run: &FwRun) -> Option<String> {
+    let n = c.machines.len();
+    let mut active = false;
+    let mut started: u64 = c.t0;
+    let mut acc: u64 = 0;
+    for (j, rec) in run.calls.iter().enumerate() {
+        let (t, evs) = &c.calls[j];
+        for e in evs {
+            match e {
+                maybenot::TriggerEvent::BlockingBegin { .. } => {
+                    if !active {
+                        active = true;
+                        started = *t;
+                    }
+                }
+                maybenot::TriggerEvent::BlockingEnd => {
+                    if active {
+                        acc = acc.saturating_add(t.saturating_sub(started));
+                        active = false;
+                    }
+                }
+                _ => {}
+            }
+        }
+        if evs.len() != 1 {
+            continue;
+        }
+        let ongoing = if active { t.saturating_sub(started) } else { 0 };
+        let blocked = acc.saturating_add(ongoing);
+        let elapsed = t.saturating_sub(c.t0);
+        for a in &rec.actions {
+            if let TriggerAction::BlockOutgoing { machine, replace, .. } = a {
+                let i = machine.into_raw();
+                if i >= n {
+                    continue;
+                }
+                let m = &c.machines[i];
+                let ok = (*replace && active)
+                    || blocked < m.allowed_blocked_microsec
+                    || (share_below(m.max_blocking_frac, blocked, elapsed)
+                        && share_below(c.fblk, blocked, elapsed));
+                if !ok {
+                    return Some(format!(
+                        "call {}: BlockOutgoing(replace={}) for machine {}: blocking active={}, blocked {} us (allowed {}), elapsed {} us, machine limit {}, framework limit {}",
+                        j, replace, i, active, blocked, m.allowed_blocked_microsec, elapsed, m.max_blocking_frac, c.fblk
                     ));
                 }
             }
